@@ -113,6 +113,15 @@ pub fn silent_items(seed: u64) -> Vec<(String, String)> {
         for w in v.linking.iter().chain(v.fillers.iter()) {
             add(format!("{} {} {}", v.classes[0][0], w, v.classes[0][1]));
         }
+        // numerals beyond 2^53 (not exactly representable as f64), built from the largest scale words
+        let top: &[&str] = match l { "de" => &["millionen", "billion"], "it" => &["milioni", "bilioni"], "nl" => &["miljoen", "biljoen"], "pt" => &["milhões", "biliões"], "en" => &["million", "billion"], "fr" => &["millions", "milliard"], _ => &["mil", "millones"] };
+        for head in [2u64, 10, 12, 19, 123, 999] {
+            for tail in [1u64, 3, 7, 21, 999] {
+                let (h, t) = (spell::cardinal(l, head, &mut Canon).join(" "), spell::cardinal(l, tail, &mut Canon).join(" "));
+                add(format!("{} {} {} {}", h, top[0], top[1], t));
+                add(format!("{} {} {}", h, top[1], t));
+            }
+        }
     }
     // generated sentences
     let mut runner = TestRunner::new(Config { rng_seed: RngSeed::Fixed(hash_of(&(seed, "silent"))), failure_persistence: None, ..Config::default() });
@@ -176,7 +185,7 @@ impl Property for C14 {
         "C14"
     }
     fn rule(&self) -> String {
-        "History independence (generated, shrinkable): histories of 4..300 public calls (text2digits, replace_numbers_in_text, find_numbers on annotated tokens, find_numbers_iter drained, find_numbers_iter abandoned after its first or second result, replace_numbers_in_stream, exec_group, basic_annotate, get_interpreter_for+rewrite) drawn from a pool of 2..12 distinct calls over all seven languages, clean/dirty sentences and speller phrases, any threshold, repeated and interleaved on ONE set of shared interpreters; every result must equal the result of the same call on a freshly constructed interpreter. Sharing across threads (whole-run procedure): 16 threads share one &Language per language and replay generated call lists concurrently; every result must equal the single-threaded result on a fresh interpreter. Type level: a separate crate asserts Language and the seven concrete types are Send + Sync + 'static (./check C14 builds it first). Silence: the harness re-executes itself as a child with stdout and stderr piped; the child runs a workload through every public function that covers the spellings of all n < 2000, all scale words, ordinals < 200 in every inflection, decimals, every vocabulary word, and 20 000 generated calls; both pipes must stay empty. Non-trivial = distinct histories with >= 2 languages and a repeated call after a different call.".into()
+        "History independence (generated, shrinkable): histories of 4..300 public calls (text2digits, replace_numbers_in_text, find_numbers on annotated tokens, find_numbers_iter drained, find_numbers_iter abandoned after its first or second result, replace_numbers_in_stream, exec_group, basic_annotate, get_interpreter_for+rewrite) drawn from a pool of 2..12 distinct calls over all seven languages, clean/dirty sentences and speller phrases, any threshold, repeated and interleaved on ONE set of shared interpreters; every result must equal the result of the same call on a freshly constructed interpreter. Sharing across threads (whole-run procedures): 16 threads share one &Language per language and replay generated call lists concurrently, every result must equal the single-threaded result on a fresh interpreter; cold start: 300 (thorough 3000) rounds in which 8 threads released by a barrier make the very first calls on a freshly built interpreter; hot loop: 16 threads hammer 8 long compound numbers per language on one interpreter. Type level: a separate crate asserts Language and the seven concrete types are Send + Sync + 'static (./check C14 builds it first). Silence: the harness re-executes itself as a child with stdout and stderr piped; the child runs a workload through every public function that covers the spellings of all n < 2000, all scale words, ordinals < 200 in every inflection, decimals, every vocabulary word, and 20 000 generated calls; both pipes must stay empty. Non-trivial = distinct histories with >= 2 languages and a repeated call after a different call.".into()
     }
     fn assumptions(&self) -> Vec<String> {
         vec![
@@ -229,6 +238,83 @@ impl Property for C14 {
         obs.label("thread-stress-rounds");
         if let Some((th, i, got)) = bad.into_inner().unwrap() {
             return Err((format!("thread {} sharing an interpreter got a different result for call {:?}: {:?}, fresh single-threaded result {:?}", th, calls[i], got, expected[i]), serde_json::to_value(vec![calls[i].clone()]).unwrap()));
+        }
+        // --- cold start: the very first calls on a fresh interpreter, made by several threads at once ------
+        // (lazily built internal tables would be raced here and nowhere else)
+        {
+            let rounds = tier.pick(300usize, 3000usize);
+            let texts: Vec<(usize, String, String)> = LANGS
+                .iter()
+                .enumerate()
+                .map(|(li, l)| {
+                    let t = format!("{} {} {}", spell::cardinal(l, 21_354, &mut Canon).join(" "), vocab_of(l).fillers[0], spell::cardinal(l, 777_143, &mut Canon).join(" "));
+                    let want = replace_numbers_in_text(&t, &new_lang(l), 0.0);
+                    (li, t, want)
+                })
+                .collect();
+            let bad: std::sync::Mutex<Option<String>> = std::sync::Mutex::new(None);
+            for r in 0..rounds {
+                let (li, text, want) = &texts[r % texts.len()];
+                let fresh = new_lang(LANGS[*li]);
+                let barrier = std::sync::Barrier::new(8);
+                std::thread::scope(|s| {
+                    for _ in 0..8 {
+                        let (fresh, barrier, bad) = (&fresh, &barrier, &bad);
+                        s.spawn(move || {
+                            barrier.wait();
+                            let got = std::panic::catch_unwind(std::panic::AssertUnwindSafe(|| replace_numbers_in_text(text, fresh, 0.0))).unwrap_or_else(|_| "<panicked>".into());
+                            if &got != want {
+                                let mut b = bad.lock().unwrap();
+                                if b.is_none() {
+                                    *b = Some(format!("first concurrent use of a fresh {} interpreter: {:?} -> {:?}, expected {:?}", LANGS[*li], text, got, want));
+                                }
+                            }
+                        });
+                    }
+                });
+                obs.evaluations += 8;
+                if bad.lock().unwrap().is_some() {
+                    break;
+                }
+            }
+            obs.label("cold-start-rounds(8 threads, barrier)");
+            if let Some(m) = bad.into_inner().unwrap() {
+                return Err((m, json!([{"f": 1, "lang": "de", "text": "cold-start", "th_bits": 0}])));
+            }
+        }
+        // --- hot loop: a handful of long compounds hammered by 16 threads on one interpreter ----------------
+        // (content-keyed memo tables with non-atomic updates show up here)
+        {
+            let iters = tier.pick(4_000usize, 40_000usize);
+            for (li, l) in LANGS.iter().enumerate() {
+                let texts: Vec<String> = [450_000u64, 777_000, 345_000, 123_456, 999_999, 21_354, 88_000, 654_321].iter().map(|n| spell::cardinal(l, *n, &mut Canon).join(" ")).collect();
+                let want: Vec<String> = texts.iter().map(|t| format!("{:?}", text2digits(t, &new_lang(l)))).collect();
+                let sh = &shared[li];
+                let bad: std::sync::Mutex<Option<String>> = std::sync::Mutex::new(None);
+                std::thread::scope(|s| {
+                    for th in 0..16usize {
+                        let (texts, want, bad) = (&texts, &want, &bad);
+                        s.spawn(move || {
+                            for i in 0..iters {
+                                let k = (i * 7 + th * 3) % texts.len();
+                                let got = std::panic::catch_unwind(std::panic::AssertUnwindSafe(|| format!("{:?}", text2digits(&texts[k], sh)))).unwrap_or_else(|_| "<panicked>".into());
+                                if got != want[k] {
+                                    let mut b = bad.lock().unwrap();
+                                    if b.is_none() {
+                                        *b = Some(format!("16 threads sharing one {} interpreter: text2digits({:?}) = {}, single-threaded {}", l, texts[k], got, want[k]));
+                                    }
+                                    return;
+                                }
+                            }
+                        });
+                    }
+                });
+                obs.evaluations += (16 * iters) as u64;
+                if let Some(m) = bad.into_inner().unwrap() {
+                    return Err((m, json!([{"f": 0, "lang": l, "text": texts[0], "th_bits": 0}])));
+                }
+            }
+            obs.label("hot-loop(16 threads, 8 long compounds per language)");
         }
         // --- silence -----------------------------------------------------------------------------
         let total_items = silent_items(seed).len();
